@@ -422,7 +422,7 @@ unsafe fn dispose_general_node<T: RcObject>(
             // A node reclaimed by the cascade stands in for its pending destruction attempt: like
             // `try_destruct` it has to publish DESTRUCTED by a CAS that observes a zero count, so
             // that `upgrade` fails from now on. If a reference has been created in the meantime
-            // (the count is no longer zero), the protocol of `try_destruct` takes over.
+            // (the count is no longer zero), the attempt is handed back to a deferred `try_destruct`.
             vy!(130, ptr, state.as_raw());
             if state.strong() != 0
                 || rc
@@ -436,7 +436,8 @@ unsafe fn dispose_general_node<T: RcObject>(
                     .is_err()
             {
                 vy!(1130, ptr, 0);
-                return RcInner::try_destruct(rc);
+                guard.defer_with_inner(rc, |rc| RcInner::try_destruct(rc));
+                return;
             }
         }
         vy!(1101, ptr, depth);
